@@ -431,4 +431,4 @@ for _p in ["C%02d" % i for i in range(1, 21)]:
         NOT_APPLICABLE[_p] = "check under construction in this session; not claimed until it is sound and silent on the unchanged tree"
 
 # commits in /repo that add build-tag-guarded hooks
-HOOK_COMMITS = ["35a7129", "a9d736d"]
+HOOK_COMMITS = ["35a7129", "a9d736d", "31dd48e"]
